@@ -23,6 +23,16 @@
   Exercised on disk by the harness as root, not modelled (lstat/readlink/xattr/content snapshots, both
   digests, caidx+store, tar-stream input, gnu-tar/mtree output): `archive/tar`, chunking of the archive
   (C02) and chunk transport (C03).  The file-system model carries owner, the twelve mode bits and the extended
+  The tar-stream input and GNU-tar output legs (tarfs.go) are `Model/TarFS.lean`: `TarReader.Next` as the map
+  from the header archive/tar delivers to the `File` record (`tar_input_reproduces_mode`,
+  `tar_input_reproduces_fields`), the four `TarWriter.Create*` methods as maps from a node to the header handed to
+  archive/tar (`gnutar_roundtrip_partial`, `gnutar_loses_setid`: the known finding as a theorem,
+  `gnutar_roundtrip_with_tarMode`: the repair is the helper that is already there, `gnutar_refuses_xattrs`).
+
+  Modelled, not verified (exercised on disk by the harness as root: lstat/readlink/xattr/content
+  snapshots, both digests, caidx+store, tar-stream input, gnu-tar/mtree output): `filepath.Walk`
+  order and the reading side of `LocalFS`, the byte encoding of tar headers by `archive/tar`, chunking of the
+  archive (C02) and chunk transport (C03).  The file-system model carries owner, the twelve mode bits and the extended
   attributes of every object (`chown` clearing set-id bits of non-directories, `user.*` attributes
   refused on links and device nodes); the creation mode under the process's umask is abstract (`none`).
 -/
@@ -31,6 +41,7 @@ import Desync.Proofs.ModeProofs
 import Desync.Proofs.LocalFSRoundTrip
 import Desync.Proofs.LocalFSAttrOrder
 import Desync.Proofs.LocalFSReadExample
+import Desync.Proofs.TarFSProofs
 
 namespace Desync.C05
 open Desync
@@ -301,5 +312,139 @@ theorem gen_lfsread_dev :
 theorem gen_lfsread_walk :
     Gen.site_lfsread_walk_found = true ∧ Gen.lfsWalkCallback = LFS.ReadFacts.walkCallback ∧
     Gen.site_lfsread_size_use_found = true ∧ Gen.tarSizeUses = LFS.ReadFacts.sizeUses := by decide
+/-! ### the tar-stream input leg and the GNU-tar output leg (tarfs.go, `Model/TarFS.lean`) -/
+
+open TarFS in
+/-- **The tar-stream input leg reproduces type, permission, set-id and sticky bits.**  For every header archive/tar
+    hands to `TarReader.Next` — any type flag, any 64-bit value in the mode field — the stat mode `tar()` stores in
+    the catar entry (`FilemodeToStatMode` of the `File`'s mode) is the twelve low bits of the mode field OR-ed with
+    a type: `typeStat` of the union of the Go type bits that `headerFileInfo.Mode()` takes from a c_IS* value in
+    the mode field (`cisType`: only the six exact values c_ISDIR, c_ISFIFO, c_ISLNK, c_ISBLK, c_ISCHR, c_ISSOCK
+    count, in bits 12 and up of the low 32 bits) and from the type flag (`flagType`).  When the mode field carries
+    no such value, or the one that says what the type flag says (`ModeAgrees`: every header GNU tar, Go's
+    `FileInfoHeader` or desync's own writer produce), the type is the S_IF* constant of the type flag
+    (`statTypeOfFlag`: S_IFREG for a regular file, and for every flag that is not one of directory, symbolic link,
+    character device, block device, FIFO).  A c_IS* value that contradicts the type flag is NOT ignored: the two
+    are united, and a union of two different types is stored as S_IFREG (third component: a directory entry whose
+    mode field says "symbolic link" becomes a regular-file mode; a regular-file entry whose mode field says
+    "directory" becomes a directory). -/
+theorem tar_input_reproduces_mode :
+    (∀ h : TarHdr, inputStatMode h =
+      typeStat (cisType h.mode ||| flagType h.typeflag) ||| (h.mode.toUInt32 &&& 0o7777)) ∧
+    (∀ h : TarHdr, ModeAgrees h →
+      inputStatMode h = statTypeOfFlag h.typeflag ||| (h.mode.toUInt32 &&& 0o7777) ∧
+      kindOf (readerFile h).mode = kindOfFlag h.typeflag) ∧
+    (inputStatMode { typeflag := TypeDir, name := [100], mode := 0o120755 } = 0o100755 ∧
+     inputStatMode { typeflag := TypeReg, name := [100], mode := 0o40644 } = 0o40644) :=
+  ⟨input_mode_general, fun h hc => ⟨input_mode h hc, input_kind h hc⟩, by decide⟩
+
+open TarFS in
+/-- the six supported type flags, spelled out: regular file, directory, symbolic link, character device, block
+    device, FIFO give S_IFREG, S_IFDIR, S_IFLNK, S_IFCHR, S_IFBLK, S_IFIFO; `tar()` then packs the first five as
+    file / directory / symlink / device nodes and skips a FIFO with a warning (`Kind.other`) -/
+example : [TypeReg, TypeDir, TypeSymlink, TypeChar, TypeBlock, TypeFifo].map statTypeOfFlag =
+      [Mode.S_IFREG, Mode.S_IFDIR, Mode.S_IFLNK, Mode.S_IFCHR, Mode.S_IFBLK, Mode.S_IFIFO] ∧
+    [TypeReg, TypeDir, TypeSymlink, TypeChar, TypeBlock, TypeFifo].map kindOfFlag =
+      [.reg, .dir, .symlink, .device, .device, .other] := by decide
+
+open TarFS in
+/-- the flags that are neither file, directory, link, device nor FIFO are NOT left out: a hard link entry (the second
+    name of a file in a tar(1) archive; its header has size 0) and a PAX global header (the first record of every
+    `git archive` output) are packed as regular files of the header's size, i.e. as empty files — finding
+    `tarinput.typeflag-not-a-file-becomes-regular-file`, reproduced on the real code by harness/repro -/
+example :
+    kindOf (readerFile { typeflag := TypeLink, name := [98], linkname := [97], mode := 0o644 }).mode = .reg ∧
+    (recOfFile (readerFile { typeflag := TypeLink, name := [98], linkname := [97], mode := 0o644 }) []).size = 0 ∧
+    kindOf (readerFile { typeflag := TypeXGlobalHeader, name := [112] }).mode = .reg ∧
+    inputStatMode { typeflag := TypeXGlobalHeader, name := [112] } = Mode.S_IFREG := by decide
+
+open TarFS in
+/-- non-vacuity of `ModeAgrees`: a mode field as GNU tar writes it (04755) and as Go's `FileInfoHeader` writes it
+    (c_ISDIR | 0755 on a directory entry) -/
+example : ModeAgrees { typeflag := TypeReg, name := [102], mode := 0o4755 } ∧
+    ModeAgrees { typeflag := TypeDir, name := [100], mode := 0o40755 } := by decide
+
+open TarFS in
+/-- **The tar-stream input leg carries every other field over unchanged.**  The record `tar()` works with has the
+    header's uid, gid, modification time (as nanoseconds), size, link target, device numbers and extended
+    attributes; its path is `path.Clean` of the header's name, its parent `path.Dir` of that, its name in the
+    archive `path.Base` of `FileInfo().Name()`; its content is what reading the entry yields. -/
+theorem tar_input_reproduces_fields (h : TarHdr) (data : Bytes) :
+    let r := recOfFile (readerFile h) data
+    r.path = goClean h.name ∧ r.parent = dirOf (goClean h.name) ∧ r.base = goBase (infoName h) ∧
+    r.uid = h.uid ∧ r.gid = h.gid ∧ r.mtime = h.mtime.unixNano ∧ r.size = h.size ∧ r.target = h.linkname ∧
+    r.major = h.devmajor ∧ r.minor = h.devminor ∧ r.xattrs = h.xattrs ∧ r.data = data ∧
+    r.mode = (inputStatMode h).toUInt64 ∧ r.kind = kindOf (tarInfoMode h) :=
+  input_fields h data
+
+open TarFS in
+/-- `path.Clean` does not change the name of an archive node: a non-empty sequence of filename elements the
+    decoder accepts (none empty, ".", ".." or containing a slash), joined by slashes; nor the root's "." -/
+theorem clean_keeps_node_names (cs : List Bytes) (hne : cs ≠ []) (h : ∀ c ∈ cs, NormalElem c) :
+    goClean (joinSlash cs) = joinSlash cs ∧ goClean [dot] = [dot] :=
+  ⟨goClean_joinSlash cs hne h, goClean_dot⟩
+
+open TarFS in
+/-- **GNU-tar output, read back (partial).**  The header `TarWriter` builds for a node (`writerHdr`), read by
+    `TarReader`, gives back: the path (names that `path.Clean` leaves alone: `clean_keeps_node_names`), owner,
+    modification time, extended attributes, size, link target and device numbers exactly, and of the mode the
+    S_IF* type and the nine permission bits.  PARTIAL in three respects, each stated by a theorem of its own:
+    the set-id and sticky bits are gone (`gnutar_loses_setid`; the known finding); this is the header handed to
+    archive/tar, and that library keeps whole seconds of the modification time only and refuses a header with
+    extended attributes (`gnutar_refuses_xattrs`). -/
+theorem gnutar_roundtrip_partial (k : NKind) (n : TNode) (hmode : NodeModeOK k n.mode)
+    (hclean : goClean n.name = n.name) :
+    let f := readerFile (writerHdr k n)
+    f.path = n.name ∧ f.name = goBase n.name ∧ f.uid = n.uid ∧ f.gid = n.gid ∧ f.mtime = n.mtime ∧
+    f.xattrs = n.xattrs ∧ f.size = (if k = .file then n.size else 0) ∧
+    f.linkTarget = (if k = .symlink then n.target else []) ∧
+    f.devMajor = (if k = .device then n.major else 0) ∧ f.devMinor = (if k = .device then n.minor else 0) ∧
+    Mode.filemodeToStat f.mode = typeStat (n.mode &&& Mode.ModeType) ||| (n.mode &&& 0x1ff) := by
+  obtain ⟨h1, h2, h3, h4, h5, h6, h7, h8, h9, h10⟩ := gnutar_fields k n hclean
+  exact ⟨h1, h2, h3, h4, h5, h6, h7, h8, h9, h10, gnutar_mode k n hmode⟩
+
+open TarFS in
+/-- **The known finding as a theorem about the model** (`gnutar.header-mode.filemode-bits`): a regular file with
+    mode 04755 written by `TarWriter` (`Mode: int64(n.Mode)`) comes back as 0755 — and with `tarMode(n.Mode)` in
+    that field it would come back as 04755.  The node satisfies the hypotheses of `gnutar_roundtrip_partial`. -/
+theorem gnutar_loses_setid :
+    ∃ n : TNode, NodeModeOK .file n.mode ∧ goClean n.name = n.name ∧
+      Mode.filemodeToStat n.mode = 0o104755 ∧
+      inputStatMode (writerHdr .file n) = 0o100755 ∧
+      inputStatMode (writerHdrTarMode .file n) = 0o104755 :=
+  ⟨{ name := [115, 117], mode := Mode.ModeSetuid ||| 0o755 }, by decide⟩
+
+open TarFS in
+/-- **With the helper `tarMode` the whole mode survives**: had the four `Create*` methods written
+    `Mode: tarMode(n.Mode)` (the function is in tarfs.go and is what the mtree writer uses), the stat mode read back
+    would be the node's, set-id and sticky bits included, for every node -/
+theorem gnutar_roundtrip_with_tarMode (k : NKind) (n : TNode) (hmode : NodeModeOK k n.mode) :
+    inputStatMode (writerHdrTarMode k n) = Mode.filemodeToStat n.mode :=
+  gnutar_mode_with_tarMode k n hmode
+
+open TarFS in
+/-- **What archive/tar does with these headers** (its contract as far as this leg meets it; checked against the
+    library on every run).  It refuses the header of every directory, file and symbolic link that has an extended
+    attribute — `TarWriter` asks for `FormatGNU`, which cannot hold them — so `untar` to a GNU tar stream fails on
+    such a node; device nodes ask for no format and pass.  Of the modification time it keeps whole seconds: cut
+    off for directories, files and links, rounded to the nearest second for device nodes; a time without a
+    fraction is kept exactly, and what is kept is never a second or more away. -/
+theorem gnutar_refuses_xattrs (k : NKind) (n : TNode) :
+    wireRefuses (writerHdr k n) = (decide (k ≠ .device) && !n.xattrs.isEmpty) ∧
+    (wireMtime (writerHdr k n).format n.mtime =
+      if k = .device then (if 500000000 ≤ n.mtime.nsec then ⟨n.mtime.sec + 1, 0⟩ else ⟨n.mtime.sec, 0⟩)
+      else ⟨n.mtime.sec, 0⟩) ∧
+    (n.mtime.nsec < 1000000000 →
+      n.mtime.nanos - 1000000000 < (wireMtime (writerHdr k n).format n.mtime).nanos ∧
+      (wireMtime (writerHdr k n).format n.mtime).nanos ≤ n.mtime.nanos + 500000000 ∧
+      (n.mtime.nsec = 0 → wireMtime (writerHdr k n).format n.mtime = n.mtime)) :=
+  ⟨gnutar_refused k n, gnutar_mtime_kept k n, wireMtime_close _ _⟩
+
+open TarFS in
+/-- non-vacuity: a directory node `a/b` with sticky bit and an extended attribute satisfies the hypotheses of
+    `gnutar_roundtrip_partial`, and its header is one archive/tar refuses -/
+example : NodeModeOK .dir (Mode.ModeDir ||| Mode.ModeSticky ||| 0o755) ∧ goClean [97, 47, 98] = [97, 47, 98] ∧
+    wireRefuses (writerHdr .dir { name := [97, 47, 98], mode := (Mode.ModeDir ||| Mode.ModeSticky ||| 0o755),
+                                  xattrs := [([117], [118])] }) = true := by decide
 
 end Desync.C05
